@@ -729,11 +729,24 @@ def mon_state(case, lines, meta):
     lay_of = _lay_of(case)
     up = {}
     why = {}
+    pub = {}               # layer value -> the published state as a function of the log so far (TR.Reconnect.pubOf), all three values
+    pubwhy = {}
     prev = None
     for l in lines:
         t, w = tparse(l)
         if not w:
             continue
+        # the three-valued reading (TR.Props.C16.probe_reports_the_state_of_the_log): Reconnecting from an accepted failure,
+        # Disconnected when the request gives up in the same turn, Connected from a success / the end of a no-retry back-off
+        if w[0] == "inner_done" and w[3].startswith("err") and cfg.reconnectable(int(w[3][3:])):
+            pub[lay_of.get(w[1], 0)] = "reconnecting"
+            pubwhy[lay_of.get(w[1], 0)] = "request %s handled the connection failure %s of its inner call %s at t=%s" % (w[1], w[3], w[2], t)
+        elif w[0] == "result" and (w[2].startswith("ok:") or w[2].startswith("err:no_retry")):
+            pub[lay_of.get(w[1], 0)] = "connected"
+            pubwhy[lay_of.get(w[1], 0)] = "request %s returned %s at t=%s" % (w[1], w[2], t)
+        elif w[0] == "result" and (w[2].startswith("err:max_attempts") or w[2].startswith("err:conn_failed")):
+            pub[lay_of.get(w[1], 0)] = "disconnected"
+            pubwhy[lay_of.get(w[1], 0)] = "request %s gave up with %s at t=%s" % (w[1], w[2], t)
         if w[0] == "inner_done" and w[3].startswith("err") and cfg.reconnectable(int(w[3][3:])):
             j = lay_of.get(w[1], 0)
             up[j] = False
@@ -753,6 +766,9 @@ def mon_state(case, lines, meta):
                 return "%s is %s at t=%s although %s" % (name, st, t, why[j])
             if not up.get(j, False) and st == "connected":
                 return "%s is connected at t=%s although %s" % (name, t, why.get(j, "no request made through it has succeeded yet"))
+            if st != pub.get(j, "disconnected"):
+                return "%s is %s at t=%s, the log so far says %s: %s and nothing has changed the state since" % (
+                    name, st, t, pub.get(j, "disconnected"), pubwhy.get(j, "nothing has happened through it yet"))
         prev = w
     return None
 
@@ -983,9 +999,9 @@ SPECS = {
                             "probe-config-after-dropsvc", "ready-err", "result-notready",
                             "result-readiness-error-after-backoff", "retry-waited-for-inner-readiness"],
         "model_modules": ["TR.Model.Reconnect", "TR.Lemmas.Reconnect", "TR.Lemmas.ReconnectHistory", "TR.Lemmas.ReconnectChain",
-                          "TR.Lemmas.ReconnectEntry"],
+                          "TR.Lemmas.ReconnectEntry", "TR.Lemmas.ReconnectLog", "TR.Lemmas.ReconnectTrace"],
         "lean_files": ["TR.Model.Reconnect", "TR.Lemmas.Reconnect", "TR.Lemmas.ReconnectHistory", "TR.Lemmas.ReconnectChain",
-                       "TR.Lemmas.ReconnectEntry"],
+                       "TR.Lemmas.ReconnectEntry", "TR.Lemmas.ReconnectLog", "TR.Lemmas.ReconnectTrace"],
         "sizes": (600, 30000),
         "rule": "40 % of the cases: 2..6 requests outstanding at the same time on one shared ReconnectState (made through a dropped "
                 "clone, the same handle, the mem::replace idiom or a service made by the same layer), issue / late or missing first poll / "
@@ -1033,6 +1049,16 @@ SPECS = {
                       "phrases; the delay config().policy() reports is the delay waited (no floor); ReconnectConfig::default() never gives up; "
                       "time_since_connected() is always None and attempts() counts only the application's own increments (as the code is); "
                       "layer values made from clones of one configuration are independent instances, each with every theorem above. "
+                      "Over the TIMESTAMPED event log itself (the lines the correspondence check compares, t=<instant> <event>; no ghost "
+                      "variable): every reachable log is well formed (log_wellformed) - every inner_call line of a request after its first "
+                      "directly follows, among that request's lines, inner_call c k0 / inner_done c k0 err<kd> with kd accepted by the "
+                      "predicate, retry_on_reconnect on, attempts left, and is not earlier than the inner_done instant + a delay the policy "
+                      "allows for that attempt (exactly that instant when the request is polled whenever its back-off ends and the inner "
+                      "service has no recovery time: retry_exactly_after_the_delay); no prefix has more than max_attempts+1 inner_call lines "
+                      "of one request; every result line wraps the request's LAST inner_done line with the variant the configuration and "
+                      "the number of inner_call lines dictate, nothing of the request follows it, and an inner_done ok is followed only by "
+                      "its result; every probe line reports pubOf of the lines before it (Connected / Disconnected / Reconnecting as a "
+                      "function of the log); the ghost list of calls is exactly the request's inner_call lines. "
                       "The model is tied to the real ReconnectLayer by line-for-line agreement of event logs.",
         "level_note": LEVEL_NOTE,
     },
